@@ -115,6 +115,7 @@ OVERLAYS = {
     "snaps_trace_test.go": ("snaps", "zz_verif_trace_test.go"),
     "snaps_util_test.go": ("snaps", "zz_verif_util_test.go"),
     "snaps_json_test.go": ("snaps", "zz_verif_json_test.go"),
+    "snaps_diff_test.go": ("snaps", "zz_verif_diff_test.go"),
 }
 
 
@@ -305,6 +306,8 @@ def compare(impl, model, fields_by_kind):
                 va, vb = norm_writes(va or "-"), norm_writes(vb or "-")
             if f == "line" and a[2].get("outcome") != "failed:diff":
                 continue  # the line is observable only in a diff report footer
+            if vb == "*":
+                continue  # the model does not speak about this field
             if va != vb:
                 mism.append("%s %s field %s: impl=%s model=%s" % (kind, a[1], f, str(va)[:200], str(vb)[:200]))
     return mism
